@@ -29,6 +29,7 @@ var c06Tokens = []string{
 // authority terminators) is reached by the exhaustive part and not only by the random one
 var c06Prefixes = []string{
 	"https://", "http://", "https://good.test", "http://good.test", "https://sub.good.test", "https://evil.test", "https://[::1]", "//good.test", "/x", "https://127.0.0.1",
+	"https:///", // empty authority for net/url, "ignore the extra slashes" for a browser
 }
 
 // c06Pow returns n^0 + ... helpers for the index <-> string mapping: strings of exactly k tokens occupy N^k indexes.
